@@ -25,6 +25,12 @@ deriving Repr, DecidableEq, Inhabited
 
 abbrev M := Except Err
 
+instance {α : Type} [DecidableEq α] : DecidableEq (M α)
+  | .ok a, .ok b => if h : a = b then isTrue (by rw [h]) else isFalse (by intro e; cases e; exact h rfl)
+  | .error a, .error b => if h : a = b then isTrue (by rw [h]) else isFalse (by intro e; cases e; exact h rfl)
+  | .ok _, .error _ => isFalse (by intro e; cases e)
+  | .error _, .ok _ => isFalse (by intro e; cases e)
+
 /-- value of an `Optional[T]` where Python needs a `T` (`None + 1`, `len(None)`, … raise `TypeError`) -/
 def unwrap {α : Type} : Option α → M α
   | some a => pure a
